@@ -61,6 +61,14 @@ func merge(logs types.ChangeLogSlice) types.ChangeLogSlice {
 		if !needMerge(log.LogType) {
 			// 不需要merge的changelog就直接按照顺序push到数组中
 			result = append(result, log.Copy())
+			if log.LogType == SuicideLog {
+				// A self-destruct zeroes the balance and the roots. What is written after it must not be
+				// folded into a log in front of it: replaying [Balance, Suicide] would zero it again.
+				delete(typeMap, BalanceLog)
+				delete(typeMap, StorageRootLog)
+				delete(typeMap, AssetCodeRootLog)
+				delete(typeMap, AssetIdRootLog)
+			}
 			continue
 		}
 
